@@ -69,6 +69,8 @@ def run(ctx):
             if len(keys) < 3:
                 nrow += 1
                 combos.append((LINKTYPES[nrow % 3], VCLASSES[1 + nrow % 2]))
+            if len(keys) == 1:
+                combos.append((LINKTYPES[nrow % 3], "EqVert"))      # the key and the extra vertex are distinct objects that compare equal
             for lt, vcls in combos:
                 if len(keys) == 2 and lt != "DirectedEdge" and (len(rows[0]) + len(rows[1])) > 3 and vcls == "Vertex":
                     continue
@@ -93,7 +95,7 @@ def run(ctx):
                             want[x]["links"].append((lt, (k, x)))
                         if x not in want_members:
                             want_members.append(x)
-                why = compare(out, V, want, want_members, h) or readback(h, V, want, lt) or prior_universe(W, verts)
+                why = compare(out, V, want, want_members, h, links_only=(vcls == "EqVert")) or readback(h, V, want, lt) or (prior_universe(W, verts) if vcls != "EqVert" else None)
                 res.ob(why is None, sig=("dict", keys, rows, lt, vcls), sample={"builder": "load_adj_dict", "adjacency": {k: list(r) for k, r in zip(keys, rows)}, "linktype": lt})
                 if why:
                     feats = ("rows-are-iterators," if one_shot else "") + (f"vertex-class={vcls}," if vcls != "Vertex" else "") + f"empty-row={any(len(r) == 0 for r in rows)},self-entry={any(k in r for k, r in zip(keys, rows))},repeated-entry={any(len(set(r)) < len(r) for r in rows)},value-not-a-key={any('e' in r for r in rows)}"
@@ -112,6 +114,8 @@ def run(ctx):
             combos = [(lt, "Vertex") for lt in (LINKTYPES if size <= 2 and ci % 3 == 0 else ("DirectedEdge",))]
             if size <= 2 or ci % 5 == 0:
                 combos.append((LINKTYPES[ci % 3], VCLASSES[1 + ci % 2]))
+            if size == 2 or (size == 3 and ci % 5 == 0):
+                combos.append((LINKTYPES[(ci + 1) % 3], "EqVert"))
             for lt, vcls in combos:
                 try:
                     V, P, W = world(h, names + ["e"], vcls)
@@ -134,8 +138,8 @@ def run(ctx):
                             want[a]["links"].append((lt, (a, b)))
                             if a != b:
                                 want[b]["links"].append((lt, (a, b)))
-                why = compare(out, V, want, list(names), h) or readback(h, V, want, lt)
-                why = why or prior_universe(W, names + ["e"])
+                why = compare(out, V, want, list(names), h, links_only=(vcls == "EqVert")) or readback(h, V, want, lt)
+                why = why or (prior_universe(W, names + ["e"]) if vcls != "EqVert" else None)
                 res.ob(why is None, sig=("matrix", size, cell, lt, vcls), sample={"builder": "load_adj_matrix", "cells": [list(cell[i * size:(i + 1) * size]) for i in range(size)], "linktype": lt})
                 if why:
                     res.violation("BUILD-MATRIX", MAT_FN, f"size={size},diagonal={any(cell[i * size + i] for i in range(size))}" + (f",vertex-class={vcls}" if vcls != "Vertex" else ""), f"load_adj_matrix(size {size}, truthy cells {cell}, {lt}) on {vcls} objects: {why}", replay=replay_mat(size, cell, lt))
@@ -220,7 +224,9 @@ def prior_universe(W, names_):
     return None if got == want else f"the pre-existing universe W now lists {got}, it listed {want}"
 
 
-def compare(out, V, want, want_members, h):
+def compare(out, V, want, want_members, h, links_only=False):
+    """links_only: the vertices are distinct objects of a user class with value equality; which of them a universe lists is the
+    user's own doing (membership tests compare by ==), the created links are not."""
     if out.kind != "return":
         return f"raises {out.excname}"
     u = out.value
@@ -228,12 +234,12 @@ def compare(out, V, want, want_members, h):
         return f"returns {out!r}"
     u.name = "new-universe"
     members = [x.name for x in u.fields["_vertices"].items]
-    if members != want_members:
+    if members != want_members and not links_only:
         return f"universe members {members}, expected {want_members} (first-mention / side-array order)"
     post = snapshot(V)
     for n in V:
         exp_unis = want[n]["universes"] + (["new-universe"] if n in want_members else [])
-        if post[n]["universes"] != exp_unis:
+        if post[n]["universes"] != exp_unis and not links_only:
             return f"{n}.universes = {post[n]['universes']}, expected {exp_unis}"
         if post[n]["links"] != want[n]["links"]:
             return f"{n}.links = {post[n]['links']}, expected {want[n]['links']}"
